@@ -374,7 +374,87 @@ func (x *Exec) deepEqual(a, b Value, seen map[[2]interface{}]bool, conds *[]*Ter
 	}
 }
 
+// fieldByName navigates into a struct value (through pointers and interfaces) and returns the cells of the named
+// field (searching embedded structs); ok=false if not found.
+func (x *Exec) fieldByName(v Value, t types.Type, name string) (Value, types.Type, bool) {
+	for depth := 0; depth < 8; depth++ {
+		switch tv := v.(type) {
+		case Iface:
+			if tv.T == nil {
+				return nil, nil, false
+			}
+			v, t = tv.V, tv.T
+			continue
+		case Ptr:
+			pt, ok := t.Underlying().(*types.Pointer)
+			if !ok || tv.Obj == nil {
+				return nil, nil, false
+			}
+			v, t = x.Load(tv, pt.Elem()), pt.Elem()
+			continue
+		}
+		break
+	}
+	st, ok := t.Underlying().(*types.Struct)
+	if !ok {
+		return nil, nil, false
+	}
+	agg, ok := v.(Agg)
+	if !ok {
+		return nil, nil, false
+	}
+	for i := 0; i < st.NumFields(); i++ {
+		f := st.Field(i)
+		off := x.lay.FieldOff(st, i)
+		n := x.lay.Cells(f.Type())
+		var fv Value
+		if isAggT(f.Type()) {
+			fv = Agg{append([]Value(nil), agg.Cells[off:off+n]...)}
+		} else {
+			fv = agg.Cells[off]
+		}
+		if f.Name() == name {
+			return fv, f.Type(), true
+		}
+		if f.Embedded() {
+			if r, rt, ok := x.fieldByName(fv, f.Type(), name); ok {
+				return r, rt, true
+			}
+		}
+	}
+	return nil, nil, false
+}
+
 func registerHeapPrelude2() {
+	// vAssertSameField(a, b, field, id): the named (possibly unexported, possibly embedded) field of the two objects
+	// holds structurally equal values
+	preludeFns["vAssertSameField"] = func(x *Exec, fn *ssa.Function, a []Value) Value {
+		ia, oka := a[0].(Iface)
+		ib, okb := a[1].(Iface)
+		name, id := a[2].(string), a[3].(string)
+		if !oka || !okb {
+			panic(x.errf("vAssertSameField: interface arguments expected"))
+		}
+		fa, _, ok1 := x.fieldByName(ia, nil, name)
+		fb, _, ok2 := x.fieldByName(ib, nil, name)
+		if !ok1 || !ok2 {
+			x.addObligation(&Obligation{ID: id, Kind: "assert", Cond: x.ts.False, Where: "field " + name + " not found"})
+			return nil
+		}
+		var conds []*Term
+		bad := ""
+		x.deepEqual(fa, fb, map[[2]interface{}]bool{}, &conds, &bad, name)
+		if bad != "" {
+			x.addObligation(&Obligation{ID: id, Kind: "assert", Cond: x.ts.False, Where: bad})
+			return nil
+		}
+		cond := x.ts.True
+		for _, c := range conds {
+			cond = x.ts.And(cond, c)
+		}
+		x.addObligation(&Obligation{ID: id, Kind: "assert", Cond: cond})
+		return nil
+	}
 	// vUniCoeffs(v, n): v is a field element that is, up to noise terms, a univariate polynomial of degree < n in ONE atom: returns its n
 	// concrete coefficients (reduced); nil if v involves several atoms or a higher degree.  A concrete v is a constant.
 	preludeFns["vUniCoeffs"] = func(x *Exec, fn *ssa.Function, a []Value) Value {
